@@ -1,5 +1,5 @@
 ALL = ["C%02d" % i for i in range(1, 21)]
-HOOK_COMMITS = []
+HOOK_COMMITS = ["6829243", "55a568d", "8696d6d", "0fd8bc7"]
 NOTES = ("Every check: TLC model-checks the implementation-level TLA+ module (spec/<component>), its state graph or "
          "simulated behaviours drive the real code built from /repo's working tree (-tags verif), and TLC validates the "
          "recorded trace against the abstract module; only that validation produces VIOLATION verdicts. See DESIGN.md.")
@@ -55,6 +55,37 @@ CHECKS.update({
                 ref="7-C20", note="trusted: TLC, the run builder (40 lines of Go), strconv as number encoding; floats only via exactly representable "
                                   "order-embedded samples; NaN excluded", technique="TLA+ definitions + TLC trace validation of exhaustive tables/pairs (exploration of the value range)"),
 })
+
+CONC_NOTE = ("trusted: TLC; the controlled scheduler (harness/cmd/driver/sched.go) which releases one goroutine at a time between the verif "
+             "hooks in sync2 (add-only, build tag verif); Go's sync/atomic and mutexes are sequentially consistent; histories are recorded "
+             "verbatim and identical ones validated once; data-race clause decided by the Go race detector on free-running goroutines")
+TECH_CONC = ("TLA+ model of the atomic steps checked by TLC (linearizability monitor) + hook-level schedules (DFS / bounded preemption / random) "
+             "of the real goroutines + TLC validation of every distinct history against the abstract module + fine-trace conformance to the model")
+CHECKS.update({
+    "C03": dict(text="Sets.tla checks the code's composition of the set operations against set algebra for every pair of subsets; the concurrent "
+                     "set's internal layouts are enumerated by running every construction history of <= 3-4 calls on the real set and grouping by "
+                     "the projected read/dirty/expunged state (SyncMap.tla is the model of those layouts); every ordered operand pair in all four "
+                     "implementation pairings (A = B included) x every operation runs on the real sets and TLC validates result, operands "
+                     "unchanged, detachment probes, counts, Range stop, CartesianProduct and constructors.",
+                ref="7-C03", note=SEQ_NOTE, technique=TECH),
+    "C04": dict(text="SyncMap.tla transcribes sync2/map.go step by step (one action per atomic/mutex operation = one verif hook site) with an "
+                     "on-line linearizability monitor incl. non-atomic Range; TLC checks it for 2x1, 2x2, 3x1 goroutines x calls from every set-up "
+                     "layout. Real goroutines are stepped hook by hook: every single-goroutine call sequence <= 3-4, every <=2-3-preemption (thorough: "
+                     "full DFS) schedule of two calls from every distinct layout, random 3x1/2x2/4-goroutine schedules, free-running stress. TLC "
+                     "decides linearizability of every distinct real history (Map_Abs) and checks every fine trace step against the model.",
+                ref="7-C04", note=CONC_NOTE, technique=TECH_CONC),
+    "C05": dict(text="As C04 with the set wrappers: TLC validates every distinct real history of Add/Remove/Has/AddSet/RemoveSet/Len from hook-level "
+                     "schedules (2 goroutines exhaustively within the preemption bound, 3-8 goroutines random) against an atomic-set model in which "
+                     "AddSet/RemoveSet are one atomic element operation per member; SyncMap.tla restricted to the calls the wrappers make is model-"
+                     "checked deeper (2x2, 3x1 with set-up <= 3).", ref="7-C05", note=CONC_NOTE, technique=TECH_CONC),
+    "C09": dict(text="KeyedLock.tla (atomic per-key lookup + mutex objects) is model-checked for exclusion, independence and non-blocking Try (and its "
+                     "check-then-act variant is shown to fail); real KeyedMutex/KeyedRWMutex goroutines are stepped hook by hook through every "
+                     "bounded-preemption schedule of two critical sections on a fresh or known key, through gated scenarios (one goroutine keeps "
+                     "key 1 until the other finished on key 2 / finished its Try), and random 3-4 goroutine schedules; TLC validates every history "
+                     "against the per-key lock model incl. the harness's own occupancy counter; a deadlock or process crash is a rejected history.",
+                ref="7-C09", note=CONC_NOTE, technique=TECH_CONC),
+})
+
 for k in ("C07", "C08", "C11"):
     CHECKS[k].setdefault("level", "model_checking")
 
